@@ -85,7 +85,7 @@ def run(ctx):
                       'sessions': spec['sessions'], 'met_subclass_via_base': stats.get('met_subclass_via_base', 0)}
         ctx.case(key=spec, nontrivial=nt, classes=_classes(spec, model, stats), sample=sample)
 
-    ctx.run_test(t, dict(spec=M.spec_strategy()), max_examples=ctx.scale(250, 2500), name='hierarchies')
+    ctx.run_test(t, dict(spec=M.spec_strategy()), max_examples=ctx.scale(250, 2000), name='hierarchies')
     total = ctx.evaluations + ctx.rejected
     if total and ctx.rejected > 0.05 * total:
         raise RuntimeError('generator health: Pony rejected %d of %d generated hierarchies (first: %s)'
